@@ -24,7 +24,7 @@ EXTENDS Integers, Sequences, FiniteSets
 
 CONSTANT MaxChain      \* a chain that needs MaxChain or more CNAME links is refused (16)
 
-MaxTTL == 2147483647   \* RFC 2181 section 8: the largest TTL
+MaxTTL == 2147483647   \* "nothing bounds it" (RFC 2181 section 8: the largest TTL); the driver logs larger values as this
 Min2(a, b) == IF a < b THEN a ELSE b
 
 (* index of the first RRset in ans with this owner and type, 0 if none *)
